@@ -195,7 +195,9 @@ def quickSet : List (Name × PTree) → List (Name × PTree) → Except Err (Lis
       match quickSet es des with
       | .error e => .error e
       | .ok des' => quickSet rest (Dict.set dest k (.node des'))
-    | some (.leaf _) => .error .attr
+    | some (.leaf _) =>
+      -- `_quick_set(val, <a tensor>)`: the loop body touches the tensor only when `val` is non-empty
+      if es.isEmpty then quickSet rest dest else .error .attr
     | none => .error .key
 
 /-! ### from_module -/
@@ -265,9 +267,11 @@ end
 /-- the swap tensordict returned by `to_module`, as far as the context-manager protocol is concerned -/
 structure TdObj where
   tree : List (Name × PTree)
-  /-- `_last_op` = ("to_module", ((module,), kwargs, weakref(params))): the module and the tensordict the call was made on -/
-  lastOp : Option (MId × List (Name × PTree)) := none
-  queue : List (Option (MId × List (Name × PTree))) := []        -- `_last_op_queue` (head = right end of the deque)
+  /-- `_last_op` = ("to_module", ((module,), kwargs, weakref(params))): the module and what the weak
+  reference to the tensordict the call was made on gives at `__exit__`: `none` when that tensordict was
+  a temporary (or was deleted in the body) and has been collected -/
+  lastOp : Option (MId × Option (List (Name × PTree))) := none
+  queue : List (Option (MId × Option (List (Name × PTree)))) := []   -- `_last_op_queue` (head = right end of the deque)
   deriving Repr, Inhabited
 
 structure State where
@@ -279,10 +283,11 @@ def State.setTd (s : State) (i : Nat) (o : TdObj) : State := { s with tds := s.t
 
 /-- `p.to_module(m)` through `_as_context_manager`: the result is a new tensordict whose `_last_op`
 records the call. -/
-def toModule (σ : State) (p : List (Name × PTree)) (m : MId) : Except State (State × Nat) :=
+def toModule (σ : State) (p : List (Name × PTree)) (m : MId) (temp : Bool := false) : Except State (State × Nat) :=
   match swap σ.heap m p with
   | .error (_, h) => .error { σ with heap := h }
-  | .ok (h, sw) => .ok ({ heap := h, tds := σ.tds ++ [{ tree := sw, lastOp := some (m, p) }] }, σ.tds.length)
+  | .ok (h, sw) =>
+    .ok ({ heap := h, tds := σ.tds ++ [{ tree := sw, lastOp := some (m, if temp then none else some p) }] }, σ.tds.length)
 
 /-- mirrors tensordict/base.py:__enter__ -/
 def enterBlock (σ : State) (i : Nat) : State :=
@@ -297,7 +302,8 @@ inductive ExitRes where
 
 /-- mirrors tensordict/base.py:__exit__ (repaired: the record is popped and a `to_module` is inverted
 whether or not the body raised) and tensordict/_contextlib.py:_reverse_to_module
-(`self.to_module(module, swap_dest=out)`: the module loop first, then `_quick_set` into `out`). -/
+(`self.to_module(module, swap_dest=out)`: the module loop first, then `_quick_set` into `out`; with a
+dead weak reference `out` is `None` and there is nothing to write into). -/
 def exitBlock (σ : State) (i : Nat) (_raised : Bool) : State × ExitRes :=
   let td := σ.td i
   match td.queue with
@@ -310,9 +316,12 @@ def exitBlock (σ : State) (i : Nat) (_raised : Bool) : State × ExitRes :=
       match swap σ1.heap m td.tree with
       | .error (_, h) => ({ σ1 with heap := h }, .failed)
       | .ok (h, back) =>
-        match quickSet back src with
-        | .ok _ => ({ σ1 with heap := h }, .ok)
-        | .error _ => ({ σ1 with heap := h }, .raised)
+        match src with
+        | none => ({ σ1 with heap := h }, .ok)
+        | some sp =>
+          match quickSet back sp with
+          | .ok _ => ({ σ1 with heap := h }, .ok)
+          | .error _ => ({ σ1 with heap := h }, .raised)
 
 /-- `__exit__` as pinned at 4564555: `if exc_type is not None and issubclass(exc_type, Exception): return False`
 before anything else. -/
@@ -328,15 +337,17 @@ passes, arithmetic, in-place updates of tensor values), `raise`, nested blocks, 
 inductive Stmt where
   | nop
   | raise
-  | block (p : List (Name × PTree)) (m : MId) (body : List Stmt)
+  /-- `with p.to_module(m): body`; `temp` = `p` is not referenced from anywhere else (a temporary, or
+  `del p; gc.collect()` in the body): the weak reference kept by the swap is dead at `__exit__` -/
+  | block (p : List (Name × PTree)) (m : MId) (temp : Bool) (body : List Stmt)
   | tryExcept (body : List Stmt)
 
 mutual
 def execStmt (ex : State → Nat → Bool → State × ExitRes) : State → Stmt → State × Status
   | σ, .nop => (σ, .normal)
   | σ, .raise => (σ, .raised)
-  | σ, .block p m body =>
-    match toModule σ p m with
+  | σ, .block p m temp body =>
+    match toModule σ p m temp with
     | .error σ' => (σ', .entryFailed)
     | .ok (σ1, i) =>
       match execList ex (enterBlock σ1 i) body with
